@@ -91,7 +91,7 @@ func Solve(dir, name, problem string, timeoutMs int, agree bool) SolveResult {
 	var last SolveResult
 	var firstUnsat *SolveResult
 	for _, sp := range solvers {
-		r := runSolver(sp, file, timeoutMs)
+		r := runSolverMaybePortfolio(sp, file, timeoutMs)
 		total += r.Millis
 		r.Millis = total
 		if r.Status == "sat" {
@@ -118,4 +118,83 @@ func Solve(dir, name, problem string, timeoutMs int, agree bool) SolveResult {
 	last.Millis = total
 	last.Status = "unknown"
 	return last
+}
+
+// runSolverMaybePortfolio: z3's answer time on a quantified goal can jump from 0.1 s to 10 s when the
+// problem text changes in ways that mean nothing (a renumbered symbol, one redundant fact less): the same
+// goal is decided in 0.1 s again under another random seed. The first solver is therefore run as a small
+// portfolio: the default seed at once, two more seeds if it has not answered within a second; the first
+// decisive answer wins and the others are killed. An answer is an answer whatever the seed (soundness does
+// not depend on it); only the waiting is cut.
+func runSolverMaybePortfolio(sp solverSpec, file string, timeoutMs int) SolveResult {
+	if sp.name != "z3-new" || os.Getenv("GVC_NO_PORTFOLIO") != "" {
+		return runSolver(sp, file, timeoutMs)
+	}
+	type res struct {
+		r    SolveResult
+		seed int
+	}
+	ctx, cancel := context.WithCancel(context.Background())
+	defer cancel()
+	ch := make(chan res, 3)
+	t0 := time.Now()
+	run := func(seed int) {
+		spec := sp
+		if seed != 0 {
+			spec = solverSpec{sp.name, func(f string, t int) []string {
+				return []string{"z3-new", "smt.random_seed=" + itoa(seed), "sat.random_seed=" + itoa(seed), "-T:" + itoa(t/1000+1), "-t:" + itoa(t), f}
+			}}
+		}
+		ch <- res{runSolverCtx(ctx, spec, file, timeoutMs), seed}
+	}
+	go run(0)
+	started, finished := 1, 0
+	timer := time.NewTimer(1000 * time.Millisecond)
+	defer timer.Stop()
+	var last SolveResult
+	for finished < started {
+		select {
+		case r := <-ch:
+			finished++
+			last = r.r
+			if r.r.Status == "unsat" || r.r.Status == "sat" {
+				r.r.Millis = time.Since(t0).Milliseconds()
+				return r.r
+			}
+		case <-timer.C:
+			if started == 1 {
+				go run(1)
+				go run(2)
+				started = 3
+			}
+		}
+	}
+	last.Millis = time.Since(t0).Milliseconds()
+	return last
+}
+
+func runSolverCtx(parent context.Context, sp solverSpec, file string, timeoutMs int) SolveResult {
+	ctx, cancel := context.WithTimeout(parent, time.Duration(timeoutMs+1500)*time.Millisecond)
+	defer cancel()
+	argv := sp.argv(file, timeoutMs)
+	cmd := exec.CommandContext(ctx, argv[0], argv[1:]...)
+	var out bytes.Buffer
+	cmd.Stdout = &out
+	cmd.Stderr = &out
+	t0 := time.Now()
+	_ = cmd.Run()
+	ms := time.Since(t0).Milliseconds()
+	o := out.String()
+	first := strings.TrimSpace(strings.SplitN(o, "\n", 2)[0])
+	r := SolveResult{Backend: sp.name, Output: o, Millis: ms, Status: "unknown"}
+	switch first {
+	case "unsat":
+		r.Status = "unsat"
+	case "sat":
+		r.Status = "sat"
+		if i := strings.Index(o, "\n"); i >= 0 {
+			r.Model = o[i+1:]
+		}
+	}
+	return r
 }
